@@ -52,6 +52,7 @@ type hySec struct {
 	// slow Get: when armed, the next Get announces its key on 'enteredGet' and sleeps slowFor first
 	armedGet   atomic.Bool
 	enteredGet chan int
+	slowAll    atomic.Bool // every Set sleeps slowFor first (a backlog builds up in the hand-off queue)
 
 	mu        sync.Mutex
 	m         map[int]hySecEntry
@@ -96,6 +97,9 @@ func (s *hySec) Get(key int) (int, int64, int64, bool, error) {
 	return e.val, e.cost, e.expire, true, nil
 }
 func (s *hySec) Set(key int, value int, cost int64, expire int64) error {
+	if s.slowAll.Load() {
+		time.Sleep(s.slowFor)
+	}
 	if s.armed.CompareAndSwap(true, false) {
 		select {
 		case s.entered <- key:
@@ -170,6 +174,9 @@ func hySettle() bool {
 	return true
 }
 
+// notifyHybrid: judge removal notifications (set by TestVerifC05Hybrid for its process)
+var notifyHybrid bool
+
 func execHybrid(c hyCase, x *verifkit.Ctx, c15 bool) (fail *verifkit.Failure) {
 	if VerifNoMaintenance.Load() {
 		panic("needs real maintenance")
@@ -189,7 +196,52 @@ func execHybrid(c hyCase, x *verifkit.Ctx, c15 bool) (fail *verifkit.Failure) {
 	loaderCalls := 0
 	model := map[int]*hyModel{}
 	gBase := runtime.NumGoroutine()
-	store := NewStore[int, int](&StoreOptions[int, int]{MaxSize: int64(c.MaxSize), SecondaryCache: sec, Workers: c.Workers, Probability: c.Prob, EntryPool: c.Pool})
+	// removal notifications (hybrid caches report Delete only; evictions go to the secondary tier)
+	var noteMu sync.Mutex
+	removed := map[[2]int]int{} // (key, value) -> REMOVED calls
+	otherReasons := 0
+	var store *Store[int, int]
+	store = NewStore[int, int](&StoreOptions[int, int]{MaxSize: int64(c.MaxSize), SecondaryCache: sec, Workers: c.Workers, Probability: c.Prob, EntryPool: c.Pool,
+		Listener: func(k, v int, r RemoveReason) {
+			noteMu.Lock()
+			if r == REMOVED {
+				removed[[2]int{k, v}]++
+			} else {
+				otherReasons++
+			}
+			noteMu.Unlock()
+		}})
+	owed := map[[2]int]bool{}     // Deletes that took a memory-resident entry with nothing else going on: exactly one REMOVED call each
+	optional := map[[2]int]bool{} // Deletes issued while demotions may be in flight: the entry may have left memory first (0 or 1 calls)
+	var owedMu sync.Mutex
+	// doDelete is the only way the harness deletes; strict = the workers are settled first, so a resident
+	// entry is really taken out of memory by this call
+	doDelete := func(k int, strict bool) error {
+		if strict && notifyHybrid {
+			store.Wait()
+			hySettle()
+		}
+		var kv [2]int
+		has := false
+		_, idx := store.index(k)
+		sh := store.shards[idx]
+		tk := sh.mu.RLock()
+		if e := sh.hashmap[k]; e != nil {
+			kv, has = [2]int{k, e.value}, true
+		}
+		sh.mu.RUnlock(tk)
+		err := store.DeleteWithSecondary(k)
+		if has {
+			owedMu.Lock()
+			if strict && err == nil {
+				owed[kv] = true
+			} else {
+				optional[kv] = true
+			}
+			owedMu.Unlock()
+		}
+		return err
+	}
 	hyBase = VerifSecondaryEnqueued.Load() - VerifSecondaryProcessed.Load()
 	defer func() {
 		// let the workers finish what was handed to them before Close stops them, so that
@@ -268,7 +320,7 @@ func execHybrid(c hyCase, x *verifkit.Ctx, c15 bool) (fail *verifkit.Failure) {
 						// 'clean copy' flag and would be evicted without write-back. Steer: drop the key from both tiers.
 						x.Class("steered(known C14-stale-copy)")
 						verifkit.AddCount("steered_known_C14_stale_copy", 1)
-						if err := store.DeleteWithSecondary(k); err != nil {
+						if err := doDelete(k, false); err != nil {
 							model[k] = &hyModel{unknown: true}
 						} else {
 							model[k] = &hyModel{deleted: true}
@@ -388,7 +440,7 @@ func execHybrid(c hyCase, x *verifkit.Ctx, c15 bool) (fail *verifkit.Failure) {
 					// copy behind. Steer around it: remove the key from both tiers first.
 					x.Class("steered(known C14-stale-copy)")
 					verifkit.AddCount("steered_known_C14_stale_copy", 1)
-					if err := store.DeleteWithSecondary(st.K); err != nil {
+					if err := doDelete(st.K, false); err != nil {
 						model[st.K] = &hyModel{unknown: true}
 						continue
 					}
@@ -422,7 +474,7 @@ func execHybrid(c hyCase, x *verifkit.Ctx, c15 bool) (fail *verifkit.Failure) {
 				return f
 			}
 		case "del":
-			err := store.DeleteWithSecondary(st.K)
+			err := doDelete(st.K, true)
 			if err == nil {
 				if m := model[st.K]; m != nil {
 					m.deleted = true
@@ -534,6 +586,35 @@ func execHybrid(c hyCase, x *verifkit.Ctx, c15 bool) (fail *verifkit.Failure) {
 			if f := settle(); f != nil {
 				return f
 			}
+		case "queuedel":
+			// a backlog in the hand-off queue (every secondary Set takes 4 ms) and Deletes of keys that are
+			// still queued: the workers find those keys gone and must carry on with the rest of the queue
+			if f := settle(); f != nil {
+				return f
+			}
+			sec.slowAll.Store(true)
+			var written []int
+			for j := 0; j < c.MaxSize+c.Workers+4; j++ {
+				fresh++
+				seq++
+				if store.Set(fresh, seq, 1, 0) {
+					model[fresh] = &hyModel{val: seq}
+					written = append(written, fresh)
+				}
+			}
+			store.Wait()
+			for _, k := range written {
+				if err := doDelete(k, false); err != nil {
+					model[k] = &hyModel{unknown: true}
+				} else {
+					model[k].deleted = true
+				}
+			}
+			sec.slowAll.Store(false)
+			x.Class("deletes-of-keys-queued-for-demotion")
+			if f := settle(); f != nil {
+				return f
+			}
 		case "slowprom":
 			// a slow (4 ms) secondary Get during the promotion of key K, and a Delete (N == 0) or Set
 			// (N == 1) of exactly that key issued by a watcher while the promotion is inside it
@@ -562,7 +643,7 @@ func execHybrid(c hyCase, x *verifkit.Ctx, c15 bool) (fail *verifkit.Failure) {
 				select {
 				case k := <-sec.enteredGet:
 					if st.N == 0 {
-						err := store.DeleteWithSecondary(k)
+						err := doDelete(k, false)
 						resc <- wres{true, err == nil, err}
 					} else {
 						resc <- wres{true, store.Set(k, wv, 1, 0), nil}
@@ -616,7 +697,7 @@ func execHybrid(c hyCase, x *verifkit.Ctx, c15 bool) (fail *verifkit.Failure) {
 			if st.N == 1 {
 				// the re-written key has (had) a copy in the secondary tier: known finding C14-stale-copy from here
 				// on; take the key out of both tiers
-				if err := store.DeleteWithSecondary(st.K); err != nil {
+				if err := doDelete(st.K, false); err != nil {
 					model[st.K] = &hyModel{unknown: true}
 				} else {
 					model[st.K] = &hyModel{deleted: true}
@@ -642,7 +723,7 @@ func execHybrid(c hyCase, x *verifkit.Ctx, c15 bool) (fail *verifkit.Failure) {
 			go func() {
 				select {
 				case k := <-sec.entered:
-					err := store.DeleteWithSecondary(k)
+					err := doDelete(k, false)
 					resc <- delRes{k, err, true}
 				case <-stop:
 					resc <- delRes{}
@@ -702,6 +783,31 @@ func execHybrid(c hyCase, x *verifkit.Ctx, c15 bool) (fail *verifkit.Failure) {
 		if _, f := read(k); f != nil {
 			return f
 		}
+	}
+	if notifyHybrid {
+		// C05 on hybrid caches: every Delete that took a memory-resident entry is reported REMOVED exactly
+		// once with that entry's key and value; nothing else is reported REMOVED
+		if f := settle(); f != nil {
+			return f
+		}
+		noteMu.Lock()
+		for kv := range owed {
+			if n := removed[kv]; n != 1 {
+				noteMu.Unlock()
+				return failf("notify-hybrid/removed-count", "Delete(%d) took the resident entry with value %d out of memory; the listener was called %d times with REMOVED for it (entry pool: %v)", kv[0], kv[1], n, c.Pool)
+			}
+		}
+		for kv, n := range removed {
+			if optional[kv] && n <= 1 {
+				continue
+			}
+			if !owed[kv] {
+				noteMu.Unlock()
+				return failf("notify-hybrid/unexpected-removed", "listener called %d times with REMOVED for (key %d, value %d), which no completed Delete took out of memory", n, kv[0], kv[1])
+			}
+		}
+		noteMu.Unlock()
+		x.ClassIf(len(owed) > 0, "delete-of-resident-entry")
 	}
 	if c15 {
 		if f := settle(); f != nil {
@@ -829,6 +935,8 @@ func genHybrid(c15 bool) func(t *rapid.T) hyCase {
 						}
 					case 1:
 						return hyStep{Op: "slowget"}
+					case 2:
+						return hyStep{Op: "queuedel"}
 					}
 				}
 				return hyStep{Op: "settle"}
@@ -903,6 +1011,25 @@ func TestVerifC15(t *testing.T) {
 		ID: "C15", Gen: genHybrid(true),
 		Exec:        func(c hyCase, x *verifkit.Ctx) *verifkit.Failure { return execHybrid(c, x, true) },
 		Rule:        "C15: same harness with admission probability 1 and the workers awaited after every step; a third of the cases script failures of the secondary Set; in the others 'slowget' steps read the key a worker is copying while its (4 ms slow) secondary Set is running and require a hit without reload; non-trivial = a loader-originated or TTL-less entry was evicted from memory, or a secondary Set failed",
+		Assumptions: hyAssumptions,
+	})
+}
+
+// C05 on hybrid caches: the same executor with a removal listener, judged for one thing: a Delete
+// that takes a memory-resident entry is reported REMOVED exactly once (with the entry pool on
+// and off), and nothing else is.
+func TestVerifC05Hybrid(t *testing.T) {
+	notifyHybrid = true
+	verifkit.Run(t, verifkit.Spec[hyCase]{
+		ID: "C05", Gen: genHybrid(false),
+		Exec: func(c hyCase, x *verifkit.Ctx) *verifkit.Failure {
+			f := execHybrid(c, x, false)
+			if f != nil && !strings.HasPrefix(f.Sig, "notify-hybrid/") && !f.Sticky && !strings.HasPrefix(f.Sig, "hybrid/panic") {
+				return nil
+			}
+			return f
+		},
+		Rule:        "C05 (hybrid tier): the C14 generator and executor on plain and loading hybrid stores with a removal listener, entry pool on in a third of the cases; judged for one thing: every completed Delete that took a memory-resident entry out of memory is reported REMOVED exactly once with that entry's key and value, and REMOVED is reported for nothing else; non-trivial as for C14",
 		Assumptions: hyAssumptions,
 	})
 }
